@@ -41,10 +41,13 @@ def case_strategy():
         shared = st.lists(st.sampled_from([["cls", n] for n in knames] + [["cls", "int"], ["cls", "str"]]),
                           min_size=2, max_size=3, unique_by=repr)
         overlapping = st.tuples(st.sampled_from(["union", "inter"]), shared).map(lambda t: [t[0], t[1]])
+        mixed = st.tuples(st.sampled_from([["cls", n] for n in knames] + [["cls", "str"]]),
+                          st.sampled_from([["lit", [0]], ["lit", [0, 1]], ["lit", ["a"]], ["startswith", "a"]])).map(
+            lambda t: ["union", [t[0], t[1]]])
         samebound = st.sampled_from([["dep", ["cls", "int"], "pos"], ["dep", ["cls", "int"], "even"],
                                      ["dep", ["cls", "int"], "big"], ["lit", [0]], ["lit", [1, 2]], ["lit", [2, 3]]])
         ann = G.satisfiable(st.one_of(G.any_ann(knames, p_dep=0.3), G.any_ann(knames, p_dep=0.3), overlapping,
-                                      samebound), fit)
+                                      samebound, mixed), fit)
         ms = draw(G.method_sets(knames, ann, max_methods=6, max_pos=2, with_opt=False, with_sites=False,
                                 allow_zero=False, hosts=("func",)))
         calls = draw(G.calls_for(ms["methods"], corpus, ms["kwpool"], fitting=fit, n_calls=(3, 8)))
@@ -120,6 +123,8 @@ def run_config(spec, methods, order, salt, env=None):
                 kws = {k: S.build_value(v, env) for k, v in c["kw"].items()}
                 out = prog.call(args, kws)
                 kind = "nomethod" if out.kind == "rejected" else out.kind
+                if kind == "other" and "CycleError" in out.detail:
+                    kind = "other:CycleError"
                 vec.append([kind, out.value.mid if out.kind == "ok" else None])
             return vec
         finally:
@@ -160,7 +165,8 @@ def run_case(spec):
             i = next(k for k in range(len(base)) if vec[k] != base[k])
             c = spec["calls"][i]
             sig = None
-            if f5:
+            if f5 and "other:CycleError" in (vec[i][0], base[i][0]):
+                # F5's consequence: in some set orders the per-argument sort of hook-owning types is cyclic
                 sig = "C06:order-dependent-between-hook-owning-types"
             res.fail(f"configuration {label}: call args={c['args']} kw={c['kw']} gives {vec[i]}, baseline {base[i]}", sig)
             return False
@@ -258,7 +264,10 @@ def run_batch(stats, seed, ncases, nproc, sigs):
                     res.fail(f"subprocess {k} (other hash seed / allocation padding) differs from subprocess 0 at call "
                              f"{spec['calls'][j] if j < len(spec['calls']) else j}: {v[j] if j < len(v) else v} vs "
                              f"{vecs[0][j] if j < len(vecs[0]) else vecs[0]}",
-                             "C06:order-dependent-between-hook-owning-types" if hooked_overlap(spec) else None)
+                             "C06:order-dependent-between-hook-owning-types"
+                             if hooked_overlap(spec) and "other:CycleError" in (str(v[j][0]) if j < len(v) else "",
+                                                                                   str(vecs[0][j][0]) if j < len(vecs[0]) else "")
+                             else None)
                     break
             stats.add_case(spec, res)
             for dd in res.disagreements:
